@@ -179,7 +179,9 @@ def run_case(case, tape, ctx):
     last = max([ev[-1] if ev[0] in ('end',) else ev[2]
                 for ev in model.events if ev[0] in ('wait', 'end')]
                or [prog['t0']])
-    if not close(nrt['elapsed'], last):
+    if model.ambiguous:
+        stats['elapsed-end-skipped-grid-ambiguous'] = 1
+    elif not close(nrt['elapsed'], last):
         viol.add('C05-4', 'nrt-elapsed-end',
                  f'NRT: elapsed_time() after process() is {nrt["elapsed"]}, '
                  f'last scheduled instant is {last}')
